@@ -607,6 +607,14 @@ impl PoolGen {
             None
         };
         let mut op = create_pool_op(w, &sender, &denoms, ty, fees, id.as_deref());
+        if stable && self.rng.gen_range(0..6) == 0 {
+            // the creator declares the decimals; nothing ties them to a registry
+            if let Op::Pm { msg: pm::ExecuteMsg::CreatePool { asset_decimals, .. }, .. } = &mut op {
+                for d in asset_decimals.iter_mut() {
+                    *d = *[0u8, 1, 3, 6, 9, 18].choose(&mut self.rng).unwrap();
+                }
+            }
+        }
         if !valid {
             if let Op::Pm { msg: pm::ExecuteMsg::CreatePool { asset_denoms, asset_decimals, pool_fees, pool_type, pool_identifier }, funds, .. } = &mut op {
                 match self.rng.gen_range(0..10) {
